@@ -536,7 +536,9 @@ theorem acceptDelivery_quiet {s s' : BState} {c : ConnId} {x : BConn} {b : BSess
             · cases hs0; exact fin _ _ rfl rfl
           · split at hs0
             · cases hs0
-            · cases hs0; exact fin _ _ rfl rfl
+            · split at hs0
+              · cases hs0
+              · cases hs0; exact fin _ _ rfl rfl
         · cases hs0
       · cases hs0
     · split at h
@@ -548,7 +550,9 @@ theorem acceptDelivery_quiet {s s' : BState} {c : ConnId} {x : BConn} {b : BSess
             · cases h; exact fin _ _ rfl rfl
           · split at h
             · cases h
-            · cases h; exact fin _ _ rfl rfl
+            · split at h
+              · cases h
+              · cases h; exact fin _ _ rfl rfl
         · cases h
 
 theorem observeSent_quiet {s s' : BState} {c : ConnId} {p : Packet} (h : observeSent s c p = some s') :
